@@ -110,6 +110,7 @@ def conditions(tier):
             out.append(_mk("kdtree", shape, 1, letters))
         out.append(_mk("kdtree", (2, 2), 2, letters))
     out.append(_mk("kdtree", (2, 1, 2), 2, "LM"))
+    out.append(_mk("kdtree", (3, 3), 3, "LM"))      # three same-letter substitutions: on the ball boundary
     out.append(_mk("kdtree", (1, 1, 2, 2), 1, "LM"))
     if tier == "thorough":
         for shape in [(3, 2, 3), (2, 3, 2), (3, 3, 2), (3, 3, 3)]:
